@@ -220,8 +220,6 @@ def maps_conformance(rnd, rounds=200):
 def stubs_conformance(rnd, rounds=150):
     from scipy.spatial import KDTree
 
-    from funtracks.annotators._compute_ious import _compute_ious as ious_a
-    from funtracks.candidate_graph.iou import _compute_ious as ious_c
     from harness import candgraph, segstep
 
     n = 0
@@ -235,11 +233,8 @@ def stubs_conformance(rnd, rounds=150):
                 inter = int(np.sum((f1 == a) & (f2 == b)))
                 if inter:
                     want[(a, b)] = inter / int(np.sum((f1 == a) | (f2 == b)))
-        for real in (ious_a, ious_c):
-            got = {(int(a), int(b)): float(v) for a, b, v in real(f1, f2)}
-            n += 1
-            if set(got) != set(want) or any(abs(got[k] - want[k]) > 1e-12 for k in want):
-                return n, f"VIOLATION-CANDIDATE _compute_ious({f1.tolist()}, {f2.tolist()}) = {got}, definition {want}"
+        # (funtracks' own _compute_ious copies are NOT consulted here: they are checked against the same definition
+        # by the kernel runs of C09 / C18, where a deviation is a VIOLATION and not a broken set-up)
         # the stub returns the same pairs with IOU(inter, union) terms
         segstep.Env.labels = (1, 2, 3)
         candgraph.LABELS = (1, 2, 3)
@@ -277,7 +272,7 @@ def stubs_conformance(rnd, rounds=150):
             return n, f"KD stub {got} vs scipy {real}"
     # what the regionprops stub abstracts: a value depends only on the label's own pixels and the spacing
     # (masked frame vs whole frame), area = pixel count x voxel size, centroid = mean coordinate x spacing
-    from funtracks.annotators._regionprops_extended import regionprops_extended
+    from skimage.measure import regionprops as regionprops_extended  # (funtracks' wrapper: kernel run of C08)
 
     for _ in range(60):
         shape = rnd.choice([(4, 5), (3, 4, 4)])
@@ -453,7 +448,7 @@ def main():
     total = 0
     try:
         for name, f in (("graph", graph_conformance), ("array", arr_conformance), ("lookups", maps_conformance),
-                        ("stubs", stubs_conformance), ("dataframe model", frame_conformance)):
+                        ("stubs", stubs_conformance)):
             n, err = f(rnd)
             total += n
             print(f"selftest {name}: {n} comparisons" + (f" FAILED: {err}" if err else " ok"))
